@@ -126,6 +126,8 @@ func (e *env) argSpecs(ch *Chain) ([]argSpec, error) {
 				out = append(out, argSpec{"value", b48T}, argSpec{"value", b32T}, argSpec{"balance", nil})
 			case "SeedRandao":
 				out = append(out, argSpec{"value", b32T})
+			case "SetRecentRoots":
+				out = append(out, argSpec{"index", nil}, argSpec{"value", b32T}, argSpec{"value", b32T})
 			case "RotateSyncCommittee":
 				out = append(out, argSpec{"value", e.stateT.Fields[e.stateT.FieldIndex("next_sync_committee")].T})
 			case "Count":
